@@ -94,6 +94,7 @@ impl<'a> ser::SerializeTuple for RecTuple<'a> {
 pub struct ScriptDe {
     pub script: Vec<u8>, // 1 Some, 0 None, 3 Err; past the end: None
     pub hints: HintMode,
+    pub human_readable: bool, // what the format says about itself; the outcome must not depend on it
 }
 #[derive(Clone)]
 pub enum HintMode {
@@ -117,6 +118,9 @@ impl<'de> Deserializer<'de> for ScriptDe {
     fn deserialize_tuple<V: Visitor<'de>>(self, len: usize, visitor: V) -> Result<V::Value, DeError> {
         ev!("\"ev\":\"de_tuple\",\"len\":{}", len);
         visitor.visit_seq(ScriptSeq { script: self.script, pos: 0, hints: self.hints, hint_calls: 0 })
+    }
+    fn is_human_readable(&self) -> bool {
+        self.human_readable
     }
     serde::forward_to_deserialize_any! {
         bool i8 i16 i32 i64 i128 u8 u16 u32 u64 u128 f32 f64 char str string bytes byte_buf option unit unit_struct
